@@ -7,6 +7,7 @@ import Stef.Driver.Bits
 import Stef.Driver.Chunk
 import Stef.Driver.Spec
 import Stef.Driver.SpecEnc
+import Stef.Driver.Api
 import Stef.Driver.Codec
 import Stef.Driver.Limiter
 import Stef.Driver.Handshake
@@ -25,6 +26,7 @@ def mkHandlers : IO (List (List String × Handler)) := do
   let chunk ← mkHandler ({} : Chunk.St) Chunk.step
   let spec ← mkHandler ({} : SpecD.St) SpecD.step
   let specEnc ← mkHandler ({} : SpecEncD.St) SpecEncD.step
+  let api ← mkHandler ({} : ApiD.St) ApiD.step
   let codec ← mkHandler ({} : CodecD.St) CodecD.step
   let limiter ← mkHandler ({} : LimiterD.St) LimiterD.step
   let hs ← mkHandler () HandshakeD.step
@@ -47,6 +49,7 @@ def mkHandlers : IO (List (List String × Handler)) := do
     (["sl"], limiter),
     (["sd"], spec),
     (["se"], specEnc),
+    (["ap"], api),
     (["ce", "cx"], codec),
     (["bw", "br"], bits),
     (["ca", "cw"], chunk)
